@@ -39,6 +39,13 @@ Theorem C17_range_strict_is_filter : forall c f t c',
   ~ (f = p_from c /\ t = p_to c) -> range_cut c f t = Ok c' -> c' = restrict c f t.
 Proof. exact range_cut_strict. Qed.
 
+(* cutting twice is cutting once: a successful cut of a successful cut of c is the cut of c itself to the final range, so
+   repeated cuts (limitCertSize walks the end block down one block at a time, the block limiter and the prover flow cut
+   again afterwards) lose nothing beyond what the final range says *)
+Theorem C17_range_compose : forall c f1 t1 c1 f2 t2 c2,
+  events_in_range c -> range_cut c f1 t1 = Ok c1 -> range_cut c1 f2 t2 = Ok c2 -> range_cut c f2 t2 = Ok c2.
+Proof. exact range_cut_compose. Qed.
+
 (* error cases: outside the certificate's range; inverted; success otherwise *)
 Theorem C17_range_cases : forall c f t,
   (range_cut c f t = Err ENotWithin <-> ~ (f = p_from c /\ t = p_to c) /\ (f < p_from c \/ p_to c < t)) /\
@@ -370,7 +377,7 @@ Proof. exact GenAgreeProverFlow.adjustBlockRange_agree. Qed.
 
 (* Print Assumptions walks the whole dependency cone each time (0.8 s per call here); the theorems are therefore
    grouped in four tuples, the assumptions of a tuple being the union of the assumptions of its components *)
-Definition C17_all_range := (C17_range_is_filter, C17_range_strict_is_filter, C17_range_cases).
+Definition C17_all_range := (C17_range_is_filter, C17_range_strict_is_filter, C17_range_cases, C17_range_compose).
 Definition C17_all_limit := (C17_limit_keeps_first_and_is_maximal, C17_limit_never_fails, C17_limit_result_is_filter,
   C17_exceeds_limit_only_if_single_block, C17_exceeds_limit_unbounded_refuted, C17_limit_zero_is_identity,
   C17_limit_fitting_is_identity, C17_limit_exec_agrees).
